@@ -72,10 +72,14 @@ template <class S> static void explore(const std::string& sol, const std::vector
   int ncoord = 0; for (auto* e : R.ev) ncoord = std::max(ncoord, e->ns);
   std::vector<Move> moves; int n = R.names.size();
   for (int i = 0; i < n; i++) { if (i == R.iMu) continue; for (LD f : {2.0L, 0.5L, -1.0L, 8.0L}) moves.push_back({0, i, f}); if (i == R.iG && R.iMu >= 0) for (LD f : {1.1875L, 0.875L}) moves.push_back({0, i, f}); }  // (tied Gamma: also moves that keep Gamma > 1)
+  // far regime of one parameter (three decades up and down), as single moves only: a branch that is not taken there must not leave
+  // behind what an earlier evaluation in the ordinary regime computed
+  std::vector<Move> far_moves; for (int i = 0; i < n; i++) { if (i == R.iMu || i == R.iG) continue; far_moves.push_back({0, i, 1024.0L}); far_moves.push_back({0, i, 0.0009765625L}); }
   size_t nparam_moves = moves.size();
   for (int j = 0; j < ncoord; j++) for (LD f : {2.0L, 0.5L}) moves.push_back({1, j, f});
   std::vector<Elem> targets; targets.push_back(Elem());
   for (auto& m : moves) { Elem e; e.mv = {m}; targets.push_back(e); }
+  if (n > 4) for (auto& m : far_moves) { Elem e; e.mv = {m}; targets.push_back(e); }
   bool allpairs = tier ? n <= 64 : n <= 32;
   for (size_t a = 0; a < moves.size(); a++) for (size_t b = a + 1; b < moves.size(); b++) {
     if (moves[a].kind == moves[b].kind && moves[a].idx == moves[b].idx) continue;
